@@ -1,3 +1,2 @@
-import Driver.Loop
 import GunYu.Drive.C08
-def main : IO Unit := Driver.run [GunYu.Drive.C08.handle]
+def main : IO Unit := GunYu.Drive.C08.main
